@@ -357,3 +357,8 @@ CHECKS["C13"]["text"] += (" After the introspection results have been compared, 
 CHECKS["C14"]["text"] += " The tiling law along a middle or the last axis stretches an operand to several hundred thousand along that axis."
 CHECKS["C18"]["text"] += (" Well-formed models with 10, 5000 and 400000 nested subgraphs are loaded; a runtime abort is attributed to the innermost "
                           "frame that belongs to the library or to the harness.")
+for _pid, _what in (("C04", "zero columns / rows of the inner extent of a matrix product contribute nothing: flagged MatMul and Gemm cases are executed with an inner extent of 16411"),
+                    ("C05", "input channels whose kernel weights are zero contribute nothing: flagged cases are executed with 16411 channels (a window of more than 2^16 elements)"),
+                    ("C06", "hidden units and input features whose weights, biases and initial state are zero stay at exactly zero: flagged cases are executed with 1024 hidden units and 512 input features (weight matrices of more than a million elements)")):
+    CHECKS[_pid]["text"] += " Zero-padding law (checked by TLC on small paddings): " + _what + "; the results are the expected ones."
+    CHECKS[_pid]["technique"] += "; zero-padding law"
